@@ -280,19 +280,54 @@ theorem ExceptRel.of_eq {α : Type} {r : α → α → Prop} (hr : ∀ x, r x x)
   | ok v => exact hr v
   | error e => rfl
 
+omit [Zero R] [Neg R] in
+/-- lookup in a sub-list selected by a predicate on the key, at a key that satisfies it -/
+theorem alookup_filter_fst {κ β : Type} [BEq κ] [LawfulBEq κ] (q : κ → Bool) (l : List (κ × β))
+    (k : κ) (hk : q k = true) : alookup (l.filter (fun p => q p.1)) k = alookup l k := by
+  induction l with
+  | nil => rfl
+  | cons p l ih =>
+    obtain ⟨k1, v1⟩ := p
+    by_cases h : k1 = k
+    · subst h; simp [List.filter, hk, alookup]
+    · have h1 : (k1 == k) = false := by simpa using h
+      cases hq : q k1 <;> simp [List.filter, hq, alookup, h1, ih]
+
+/-- the entries of the sign table that `_map_blocks` re-keys: those of stored blocks -/
+def livePhases (a : Arr R) : List (Sector × Int) :=
+  a.phases.filter (fun p => (alookup a.blocks p.1).isSome)
+
+omit [Zero R] [Neg R] in
+theorem livePhases_keys_stored (a : Arr R) : ∀ k ∈ akeys (livePhases a), k ∈ a.sectors := by
+  intro k hk
+  obtain ⟨p, hp, rfl⟩ := List.mem_map.mp hk
+  exact alookup_isSome_iff.mp (List.mem_filter.mp hp).2
+
+omit [Zero R] [Neg R] in
+theorem livePhases_nodup {a : Arr R} (h : PhOk a.phases) : (akeys (livePhases a)).Nodup :=
+  List.Nodup.sublist (List.Sublist.map _ List.filter_sublist) h.1
+
+omit [Zero R] [Neg R] in
+/-- at a stored sector the live part of the sign table answers like the whole table -/
+theorem phOf_livePhases (a : Arr R) {s : Sector} (hs : s ∈ a.sectors) :
+    phOf (livePhases a) s = phOf a.phases s := by
+  unfold phOf livePhases
+  rw [alookup_filter_fst (fun k => (alookup a.blocks k).isSome) a.phases s
+    (alookup_isSome_iff.mpr hs)]
+
 /-- **`_map_blocks` on an array and on its synchronised copy.**  `fs` re-keys sectors (and the
-    sign table), `fb` maps blocks.  If `fs` is injective on the stored sectors together with the
-    sign-table keys and `fb` commutes with negation, the two results are observationally equal. -/
+    sign entries of the stored blocks; entries of sectors without a block are discarded), `fb`
+    maps blocks.  If `fs` is injective on the stored sectors and `fb` commutes with negation, the
+    two results are observationally equal — whatever else the sign table holds. -/
 theorem mapBlocks_sync_obsEq [LawfulNeg R] (a : Arr R) (fs : Sector → Sector) (fb : Blk R → Blk R)
     (hf : a.fermi = true) (h : SignOk a)
-    (hinj : ∀ k1 k2, (k1 ∈ a.sectors ∨ k1 ∈ akeys a.phases) → (k2 ∈ a.sectors ∨ k2 ∈ akeys a.phases) →
-      fs k1 = fs k2 → k1 = k2)
+    (hinj : ∀ k1 k2, k1 ∈ a.sectors → k2 ∈ a.sectors → fs k1 = fs k2 → k1 = k2)
     (hneg : ∀ b, fb b.negK = (fb b).negK) :
     ObsEq (a.mapBlocks fs fb) (a.phaseSync.mapBlocks fs fb) := by
   -- blocks
   have hnodupB : (akeys (a.blocks.map (fun p => (fs p.1, fb p.2)))).Nodup := by
     rw [akeys_map_key fs fb]
-    exact List.Nodup.map_on (fun x hx y hy e => hinj x y (Or.inl hx) (Or.inl hy) e) h.sectors
+    exact List.Nodup.map_on (fun x hx y hy e => hinj x y hx hy e) h.sectors
   have hB : (a.mapBlocks fs fb).blocks = a.blocks.map (fun p => (fs p.1, fb p.2)) :=
     adict_eq_self hnodupB
   have hsyncmap : a.phaseSync.blocks.map (fun p => (fs p.1, fb p.2))
@@ -308,20 +343,24 @@ theorem mapBlocks_sync_obsEq [LawfulNeg R] (a : Arr R) (fs : Sector → Sector) 
     rw [akeys_map_key fs fb]
     have : akeys a.phaseSync.blocks = a.sectors := phaseSync_sectors a
     rw [this]
-    exact List.Nodup.map_on (fun x hx y hy e => hinj x y (Or.inl hx) (Or.inl hy) e) h.sectors
+    exact List.Nodup.map_on (fun x hx y hy e => hinj x y hx hy e) h.sectors
   have hB' : (a.phaseSync.mapBlocks fs fb).blocks
       = a.blocks.map (fun p => (fs p.1, if phOf a.phases p.1 = -1 then (fb p.2).negK else fb p.2)) := by
     rw [← hsyncmap]; exact adict_eq_self hnodupB'
-  -- phases
-  have hP : (a.mapBlocks fs fb).phases = a.phases.map (fun p => (fs p.1, id p.2)) := by
-    show (if a.fermi then adict (a.phases.map (fun (s, p) => (fs s, p))) else a.phases) = _
+  -- phases: only the live entries are re-keyed
+  have hlive := livePhases_keys_stored a
+  have hP : (a.mapBlocks fs fb).phases = (livePhases a).map (fun p => (fs p.1, id p.2)) := by
+    show (if a.fermi then adict ((a.phases.filter (fun (s, _) => (alookup a.blocks s).isSome)).map
+      (fun (s, p) => (fs s, p))) else a.phases) = _
     rw [hf]
-    show adict (a.phases.map (fun p => (fs p.1, id p.2))) = _
+    show adict ((livePhases a).map (fun p => (fs p.1, id p.2))) = _
     apply adict_eq_self
     rw [akeys_map_key fs id]
-    exact List.Nodup.map_on (fun x hx y hy e => hinj x y (Or.inr hx) (Or.inr hy) e) h.phases.1
+    exact List.Nodup.map_on (fun x hx y hy e => hinj x y (hlive x hx) (hlive y hy) e)
+      (livePhases_nodup h.phases)
   have hP' : (a.phaseSync.mapBlocks fs fb).phases = [] := by
-    show (if a.fermi then adict (([] : List (Sector × Int)).map (fun (s, p) => (fs s, p))) else []) = _
+    show (if a.fermi then adict ((([] : List (Sector × Int)).filter
+      (fun (s, _) => (alookup a.phaseSync.blocks s).isSome)).map (fun (s, p) => (fs s, p))) else []) = _
     rw [hf]; rfl
   refine ⟨rfl, rfl, rfl, rfl, rfl, ?_, ?_⟩
   · unfold skel
@@ -337,17 +376,18 @@ theorem mapBlocks_sync_obsEq [LawfulNeg R] (a : Arr R) (fs : Sector → Sector) 
     rw [elem_eq, elem_eq, hB, hB', hP, hP']
     by_cases ht : ∃ s ∈ a.sectors, fs s = t
     · obtain ⟨s, hs, rfl⟩ := ht
-      rw [alookup_map_inj fs fb a.blocks s (fun k hk he => hinj k s (Or.inl hk) (Or.inl hs) he),
+      rw [alookup_map_inj fs fb a.blocks s (fun k hk he => hinj k s hk hs he),
         show a.blocks.map (fun p => (fs p.1, if phOf a.phases p.1 = -1 then (fb p.2).negK else fb p.2))
           = (a.blocks.map (fun p => (p.1, (fun k b => if phOf a.phases k = -1 then (fb b).negK else fb b) p.1 p.2))).map
               (fun p => (fs p.1, id p.2)) by simp [List.map_map, Function.comp_def],
         alookup_map_inj fs id _ s (fun k hk he => by
           rw [akeys_map_val (fun k b => if phOf a.phases k = -1 then (fb b).negK else fb b)] at hk
-          exact hinj k s (Or.inl hk) (Or.inl hs) he),
+          exact hinj k s hk hs he),
         alookup_map_val (fun k b => if phOf a.phases k = -1 then (fb b).negK else fb b)]
-      have hph : phOf (a.phases.map (fun p => (fs p.1, id p.2))) (fs s) = phOf a.phases s := by
+      have hph : phOf ((livePhases a).map (fun p => (fs p.1, id p.2))) (fs s) = phOf a.phases s := by
+        rw [← phOf_livePhases a hs]
         unfold phOf
-        rw [alookup_map_inj fs id a.phases s (fun k hk he => hinj k s (Or.inr hk) (Or.inl hs) he)]
+        rw [alookup_map_inj fs id (livePhases a) s (fun k hk he => hinj k s (hlive k hk) hs he)]
         simp
       rw [hph]
       cases alookup a.blocks s with
@@ -377,45 +417,55 @@ theorem ObsEq.withFrame {x y : Arr R} (h : ObsEq x y) (idx : List Index) (c : Ch
     ObsEq ({ x with indices := idx, charge := c } : Arr R) ({ y with indices := idx, charge := c } : Arr R) :=
   ⟨h.sym, h.fermi, rfl, rfl, h.oddpos, h.skel, h.elem⟩
 
+/-- every stored sector has its charges in the index tables (a clause of `validB`) -/
+def SecInTables (a : Arr R) : Prop :=
+  ∀ s ∈ a.sectors, (Arr.blockShape? a.indices s).isSome = true
+
 /-- every stored sector and every key of the sign table has its charges in the index tables
     (`validB` gives the first part; the second is `ValidP.phaseKeysInTablesB`, which holds
-    whenever the sign-table keys are sectors that were stored at some time) -/
+    whenever the sign-table keys are sectors that were stored at some time).  Only the first part
+    (`SecInTables`) is needed since `_map_blocks` re-keys the sign entries of stored blocks only;
+    the second was what the unrepaired `squeeze` needed. -/
 def InTables (a : Arr R) : Prop :=
   (∀ s ∈ a.sectors, (Arr.blockShape? a.indices s).isSome = true)
   ∧ (∀ k ∈ akeys a.phases, (Arr.blockShape? a.indices k).isSome = true)
 
+theorem SecInTables.of_valid {a : Arr R} (hv : a.validB = true) : SecInTables a := by
+  intro s hs
+  obtain ⟨p, hp, rfl⟩ := List.mem_map.mp hs
+  unfold Arr.validB at hv
+  simp only [Bool.and_eq_true] at hv
+  have := List.all_eq_true.mp hv.1.2 p hp
+  simp only [Bool.and_eq_true, beq_iff_eq] at this
+  rw [this.1.2]; rfl
+
+theorem InTables.sectors {a : Arr R} (h : InTables a) : SecInTables a := h.1
+
 theorem InTables.of_valid {a : Arr R} (hv : a.validB = true)
     (hk : ValidP.phaseKeysInTablesB a = true) : InTables a := by
-  refine ⟨fun s hs => ?_, fun k hk' => ?_⟩
-  · obtain ⟨p, hp, rfl⟩ := List.mem_map.mp hs
-    unfold Arr.validB at hv
-    simp only [Bool.and_eq_true] at hv
-    have := List.all_eq_true.mp hv.1.2 p hp
-    simp only [Bool.and_eq_true, beq_iff_eq] at this
-    rw [this.1.2]; rfl
-  · obtain ⟨p, hp, rfl⟩ := List.mem_map.mp hk'
-    unfold ValidP.phaseKeysInTablesB at hk
-    exact List.all_eq_true.mp hk p hp
+  refine ⟨SecInTables.of_valid hv, fun k hk' => ?_⟩
+  obtain ⟨p, hp, rfl⟩ := List.mem_map.mp hk'
+  unfold ValidP.phaseKeysInTablesB at hk
+  exact List.all_eq_true.mp hk p hp
 
 theorem squeezeMask_congr {a a' : Arr R} (h : ObsEq a a') (axis : Option (List Nat)) :
     DenseP.squeezeMask a axis = DenseP.squeezeMask a' axis := by
   unfold DenseP.squeezeMask; rw [h.indices, h.sym]
 
-/-- squeeze of an array and of its synchronised copy -/
+/-- squeeze of an array and of its synchronised copy; no hypothesis on the keys of the sign
+    table -/
 theorem squeezed_sync_obsEq [LawfulNeg R] {a : Arr R} {axis : Option (List Nat)} {m : List Bool}
-    (hm : DenseP.squeezeMask a axis = .ok m) (hf : a.fermi = true) (h : SignOk a) (hT : InTables a) :
+    (hm : DenseP.squeezeMask a axis = .ok m) (hf : a.fermi = true) (h : SignOk a)
+    (hT : SecInTables a) :
     ObsEq (DenseP.squeezed a (DenseP.keptAxes m 0)) (DenseP.squeezed a.phaseSync (DenseP.keptAxes m 0)) := by
   obtain ⟨hlen, hspec⟩ := DenseP.squeezeMask_ok hm
   have hmask : ∀ (i : Nat) (ix : Index), a.indices[i]? = some ix → m[i]? = some true →
       ∃ d, ix.cm = [(a.sym.zero, d)] ∧ d ≤ 1 := fun i ix hix hi => ((hspec i ix hix).1 hi).2
-  have hin : ∀ k, (k ∈ a.sectors ∨ k ∈ akeys a.phases) → (Arr.blockShape? a.indices k).isSome = true :=
-    fun k hk => hk.elim (hT.1 k) (hT.2 k)
-  have hinj : ∀ k1 k2, (k1 ∈ a.sectors ∨ k1 ∈ akeys a.phases) →
-      (k2 ∈ a.sectors ∨ k2 ∈ akeys a.phases) →
+  have hinj : ∀ k1 k2, k1 ∈ a.sectors → k2 ∈ a.sectors →
       permuted k1 (DenseP.keptAxes m 0) = permuted k2 (DenseP.keptAxes m 0) → k1 = k2 := by
     intro k1 k2 h1 h2 he
-    obtain ⟨sh1, e1⟩ := Option.isSome_iff_exists.mp (hin k1 h1)
-    obtain ⟨sh2, e2⟩ := Option.isSome_iff_exists.mp (hin k2 h2)
+    obtain ⟨sh1, e1⟩ := Option.isSome_iff_exists.mp (hT k1 h1)
+    obtain ⟨sh2, e2⟩ := Option.isSome_iff_exists.mp (hT k2 h2)
     have l1 : k1.length = m.length := by rw [Arr.blockShape?_length e1, hlen]
     have l2 : k2.length = m.length := by rw [Arr.blockShape?_length e2, hlen]
     rw [DenseP.permuted_keptAxes_zero m k1 l1, DenseP.permuted_keptAxes_zero m k2 l2] at he
@@ -427,9 +477,11 @@ theorem squeezed_sync_obsEq [LawfulNeg R] {a : Arr R} {axis : Option (List Nat)}
     (fun b => b.squeezeK (DenseP.keptAxes m 0)) hf h hinj (fun _ => rfl)
   exact this.withFrame (permuted a.indices (DenseP.keptAxes m 0)) a.charge
 
-/-- **congruence of `squeeze`**: same error, or observationally equal results -/
-theorem squeeze_congr [LawfulNeg R] {a a' : Arr R} (h : ObsEq a a') (fa : Full a) (fa' : Full a')
-    (hf : a.fermi = true) (hT : InTables a) (hT' : InTables a') (axis : Option (List Nat)) :
+/-- **congruence of `squeeze`**: same error, or observationally equal results — whatever the
+    sign tables hold besides the entries of the stored blocks -/
+theorem squeeze_congr_any_phases [LawfulNeg R] {a a' : Arr R} (h : ObsEq a a') (fa : Full a)
+    (fa' : Full a') (hf : a.fermi = true) (hT : SecInTables a) (hT' : SecInTables a')
+    (axis : Option (List Nat)) :
     ExceptRel ObsEq (a.squeeze axis) (a'.squeeze axis) := by
   rw [DenseP.squeeze_eq, DenseP.squeeze_eq, ← squeezeMask_congr h axis]
   cases hm : DenseP.squeezeMask a axis with
@@ -441,14 +493,62 @@ theorem squeeze_congr [LawfulNeg R] {a a' : Arr R} (h : ObsEq a a') (fa : Full a
     rw [canon h fa fa'] at e1
     exact e1.trans e2.symm
 
-theorem squeeze_sync [LawfulNeg R] {a : Arr R} (fa : Full a) (hf : a.fermi = true)
-    (hT : InTables a) (axis : Option (List Nat)) :
+theorem squeeze_sync_any_phases [LawfulNeg R] {a : Arr R} (fa : Full a) (hf : a.fermi = true)
+    (hT : SecInTables a) (axis : Option (List Nat)) :
     ExceptRel ObsEq (a.squeeze axis) (a.phaseSync.squeeze axis) := by
   rw [DenseP.squeeze_eq, DenseP.squeeze_eq, ← squeezeMask_congr (phaseSync_obsEq a).symm axis]
   cases hm : DenseP.squeezeMask a axis with
   | error e => rfl
   | ok m => exact squeezed_sync_obsEq hm hf fa.sign hT
 
+/-- the former statements (with the hypothesis on the sign-table keys that the unrepaired
+    `_map_blocks` needed); implied by the `_any_phases` forms -/
+theorem squeeze_congr [LawfulNeg R] {a a' : Arr R} (h : ObsEq a a') (fa : Full a) (fa' : Full a')
+    (hf : a.fermi = true) (hT : InTables a) (hT' : InTables a') (axis : Option (List Nat)) :
+    ExceptRel ObsEq (a.squeeze axis) (a'.squeeze axis) :=
+  squeeze_congr_any_phases h fa fa' hf hT.1 hT'.1 axis
+
+theorem squeeze_sync [LawfulNeg R] {a : Arr R} (fa : Full a) (hf : a.fermi = true)
+    (hT : InTables a) (axis : Option (List Nat)) :
+    ExceptRel ObsEq (a.squeeze axis) (a.phaseSync.squeeze axis) :=
+  squeeze_sync_any_phases fa hf hT.1 axis
+
+theorem shapesOk_phaseSync {a : Arr R} (h : Arr.ShapesOk a) : Arr.ShapesOk a.phaseSync := by
+  refine ⟨h.1, fun s b hb => ?_⟩
+  rw [phaseSync_blocks_eq, alookup_map_val (syncBlk a)] at hb
+  cases hb0 : alookup a.blocks s with
+  | none => rw [hb0] at hb; cases hb
+  | some b0 =>
+    rw [hb0] at hb
+    simp only [Option.map_some, Option.some.injEq] at hb
+    subst hb
+    have := h.2 s b0 hb0
+    show Arr.blockShape? a.indices s = some (syncBlk a s b0).shape
+    unfold syncBlk
+    split
+    · exact this
+    · exact this
+
+/-- **value view of `squeeze` with an arbitrary sign table.**  Dropping the masked coordinates of
+    a sector of the tables and of an offset of its box gives an address of the squeezed array that
+    holds the same value: an entry of the sign table whose sector has no block contributes no
+    sign to any block of the result. -/
+theorem squeezed_elem_any_phases [LawfulNeg R] {a : Arr R} {axis : Option (List Nat)}
+    {m : List Bool} (hm : DenseP.squeezeMask a axis = .ok m) (hf : a.fermi = true) (fa : Full a)
+    (hT : SecInTables a) (hsh : Arr.ShapesOk a)
+    (s : Sector) (shp off : List Nat) (hshp : Arr.blockShape? a.indices s = some shp)
+    (hoff : inBox shp off = true) :
+    (DenseP.squeezed a (DenseP.keptAxes m 0)).elem (DenseP.dropMask m s) (DenseP.dropMask m off)
+      = a.elem s off := by
+  obtain ⟨hlen, hspec⟩ := DenseP.squeezeMask_ok hm
+  have hmask : ∀ (i : Nat) (ix : Index), a.indices[i]? = some ix → m[i]? = some true →
+      ∃ d, ix.cm = [(a.sym.zero, d)] ∧ d ≤ 1 := fun i ix hix hi => ((hspec i ix hix).1 hi).2
+  have e1 := (squeezed_sync_obsEq hm hf fa.sign hT).elem (DenseP.dropMask m s) (DenseP.dropMask m off)
+  have e2 := DenseP.squeezed_elem a.phaseSync m hlen hmask rfl (shapesOk_phaseSync hsh)
+    (by rw [show a.phaseSync.sectors = a.sectors from phaseSync_sectors a]; exact fa.sign.sectors)
+    s shp off hshp hoff
+  rw [e1, e2]
+  exact (phaseSync_obsEq a).elem s off
 
 omit [Zero R] [Neg R] in
 theorem insert_inj {α : Type} (axis : Nat) (c : α) {s t : List α}
@@ -528,15 +628,20 @@ section prog2
 variable {R : Type} [Zero R] [Add R] [Mul R] [Neg R] [Conj R]
 
 /-- the state invariant of the extended programs: clauses of `Arr.validB` for a fermionic array
-    plus "sign-table keys lie in the index tables" (`ValidP.phaseKeysInTablesB`) -/
+    (nothing about the keys of the sign table: `tables` speaks of the stored sectors only) -/
 structure StOk (a : Arr R) : Prop where
   full : Full a
   fermi : a.fermi = true
-  tables : InTables a
+  tables : SecInTables a
 
+/-- every valid fermionic array satisfies the invariant -/
+theorem StOk.of_valid_any_phases {a : Arr R} (hv : a.validB = true) (hf : a.fermi = true) : StOk a :=
+  ⟨Full.of_valid hv hf, hf, SecInTables.of_valid hv⟩
+
+/-- the former form (the third hypothesis is no longer used) -/
 theorem StOk.of_valid {a : Arr R} (hv : a.validB = true) (hf : a.fermi = true)
-    (hk : ValidP.phaseKeysInTablesB a = true) : StOk a :=
-  ⟨Full.of_valid hv hf, hf, InTables.of_valid hv hk⟩
+    (_hk : ValidP.phaseKeysInTablesB a = true) : StOk a :=
+  StOk.of_valid_any_phases hv hf
 
 /-- the guard of `tensordot` (the normalised axes are distinct and in range) -/
 def tdGuard (a b : Arr R) (axes : AxesArg) : Prop :=
@@ -604,7 +709,7 @@ theorem Op2.apply_rel [LawfulNegConj R] [LawfulMulNeg R] (op : Op2 R) {a a' : Ar
     ExceptRel ObsEq (op.apply a) (op.apply a') := by
   cases op with
   | base op => exact op.apply_congr h sa.full.inv sa'.full.inv ho
-  | squeeze axis => exact squeeze_congr h sa.full sa'.full sa.fermi sa.tables sa'.tables axis
+  | squeeze axis => exact squeeze_congr_any_phases h sa.full sa'.full sa.fermi sa.tables sa'.tables axis
   | expandDims axis c dual => exact expandDims_congr h sa.full sa'.full sa.fermi axis c dual
   | mdiag v axis => exact multiplyDiagonal_congr h v axis
   | fuse g m e => exact fuseF_congr_all h sa.full sa'.full g m e ho
